@@ -499,7 +499,9 @@ impl Sig {
                 let args: Option<Vec<Term>> = items[1..].iter().map(|x| self.term_of_sexp(x)).collect();
                 let args = args?;
                 if let Some(fi) = self.funcs.iter().position(|f| f.name == *h) {
-                    if self.funcs[fi].args.len() != args.len() {
+                    // a function row printed as a term carries its value as an extra last argument: (f k.. v)
+                    let n = self.funcs[fi].args.len();
+                    if !(args.len() == n || (self.funcs[fi].is_func() && args.len() == n + 1)) {
                         return None;
                     }
                     Some(Term::App(fi, args))
